@@ -45,6 +45,10 @@ A_FILES = {
                "    (define-syntax id (syntax-rules () ((id e) 'a-file-id)))\n    (define (finc x) (+ x 1))))\n",
     "filelib2": "(define-library (util filelib2) (import (scheme base)) (export fdec)\n  (begin (define-syntax pair? (syntax-rules () ((pair? e) 'a-file-pair)))\n"
                 "    (define-syntax null? (syntax-rules () ((null? e) #f)))\n    (define-syntax car (syntax-rules () ((car e) 'a-file-car)))\n    (define (fdec x) (- x 1))))\n",
+    # a source with TWO libraries; the one A asks for is the second and has macros of its own
+    "filelib3": "(define-library (util other) (export o) (begin (define o 1)))\n(define-library (util filelib3) (import (scheme base)) (export fmul)\n"
+                "  (begin (define-syntax twice (syntax-rules () ((twice e) 'a-file3-twice)))\n    (define-syntax wrap (syntax-rules () ((wrap e) 'a-file3-wrap)))\n"
+                "    (define-syntax id (syntax-rules () ((id e) 'a-file3-id)))\n    (define-syntax list-tail (syntax-rules () ((list-tail a b) 'a-file3-lt)))\n    (define (fmul x) (* x 2))))\n",
 }
 B_PROCS = ["(define (twice f) (lambda (x) (f (f x))))", "((twice (lambda (x) (+ x 1))) 5)", "(define (local-mac x) (list 'b-local x))", "(local-mac 3)",
            "(define (wrap x) (list 'b-wrap x))", "(wrap 4)", "(define (id x) x)", "(id 9)"]
@@ -135,7 +139,8 @@ def run(tier, seed):
         if pi % 3 == 0:
             # ... or find library files beside their program, which A imports first
             aspec = dict(aspec, progdir=fdir)
-            A = ["(import (util %s))" % ("filelib" if pi % 2 else "filelib2"), "(finc 1)" if pi % 2 else "(fdec 1)"] + A
+            which = "filelib3" if pi % 9 == 0 else ("filelib" if pi % 2 else "filelib2")
+            A = ["(import (util %s))" % which, {"filelib": "(finc 1)", "filelib2": "(fdec 1)", "filelib3": "(fmul 1)"}[which]] + A
             pairs[pi] = (A, B)
         bspec = dict(spec, libs=B_LIBS) if pi % 4 in (1, 2) else spec
         b_file_lib = (pi % 3 == 0 and pi % 4 == 0)
